@@ -130,6 +130,36 @@ pub const CORPUS: &[&str] = &[
     "SELECT u.city, o.status, count(*) AS c FROM users AS u RIGHT JOIN orders AS o ON u.id = o.user_id GROUP BY u.city, o.status",
     "SELECT id FROM users WHERE NOT (age > 30 AND vip) OR score < 0",
     "SELECT CASE WHEN age < 20 THEN 'a' WHEN age < 40 THEN 'b' ELSE 'c' END AS band, avg(score) AS s FROM users GROUP BY CASE WHEN age < 20 THEN 'a' WHEN age < 40 THEN 'b' ELSE 'c' END",
+    // literals, casts and operator precedence through the renderer
+    "SELECT id, (age + 1) * 2 AS a, age + 1 * 2 AS b, -(age - 1) AS c, age - (score - 1) AS d, age - -1 AS e FROM users ORDER BY id",
+    "SELECT id, 10 - age - 1 AS l, 10 - (age - 1) AS r, 100.5 / (score + 1000.5) / 2.5 AS q, 100.5 / ((score + 1000.5) / 2.5) AS q2 FROM users ORDER BY id",
+    "SELECT id, score * 0.0000001 AS tiny, score * 1e-7 AS tiny2, age + 123456789012 AS big, score * 1.5e10 AS c, score + 0.1 AS f FROM users ORDER BY id",
+    "SELECT id FROM users WHERE city IN ('NY') AND age NOT BETWEEN 20 AND 30 ORDER BY id",
+    "SELECT id, age > 30 AND NOT (vip OR age < 20) AS f, (age > 30 OR vip) AND age < 60 AS g, age > 30 OR vip AND age < 60 AS h FROM users ORDER BY id",
+    "SELECT id, CASE WHEN vip THEN 1 ELSE 0 END AS v, CASE WHEN score IS NULL THEN -1 ELSE score END AS s, CASE WHEN age > 40 THEN 'x' END AS n FROM users ORDER BY id",
+    "SELECT id, age % 3 AS m, (age + 1) % 3 AS n, age * 2 % 5 AS o FROM users ORDER BY id",
+    "SELECT id, amount FROM orders ORDER BY id OFFSET 2",
+    "SELECT id, age FROM users ORDER BY age DESC, id ASC LIMIT 3",
+    "SELECT id, 'x\\y' AS b, 'a\"b' AS q, '' AS e, ' ' AS sp FROM users ORDER BY id",
+    "SELECT id, vip = TRUE AS t, NOT vip AS nv, FALSE AS f FROM users ORDER BY id",
+    "SELECT id, cast(age AS varchar) AS t, cast(cast(age AS float) / 2 AS integer) AS h, cast(vip AS integer) AS b FROM users ORDER BY id",
+    "SELECT id, abs(score - 1) AS a, greatest(age, 30) AS g, least(age, 30) AS l FROM users ORDER BY id",
+    "SELECT count(*) AS c, sum(score) / (count(*) + 1.5) AS m, sum(age * 2 + 1) AS s, avg(age) - 1 AS a FROM users",
+    "SELECT city, sum(CASE WHEN age > 30 THEN 1 ELSE 0 END) AS old, count(*) - 1 AS c1 FROM users GROUP BY city ORDER BY city",
+    "SELECT id, age FROM users WHERE (age > 30 AND vip) OR (age <= 30 AND NOT vip) ORDER BY id",
+    "SELECT id FROM users WHERE age > 30 AND (vip OR score < 0) ORDER BY id",
+    "SELECT id, amount FROM orders WHERE amount > -5.5 AND amount < 1000000 AND qty <> 0 ORDER BY id",
+    // postfix / infix predicates over compound operands
+    "SELECT id FROM users WHERE (age > 30 AND vip) IS NULL ORDER BY id",
+    "SELECT id, (age > 30 OR vip) IS NOT NULL AS n, (score + 1) IS NULL AS m FROM users ORDER BY id",
+    "SELECT id, age IN (20, 30) AS i, (age + 1) IN (20, 31) AS j, NOT (age IN (18, 19)) AS k FROM users ORDER BY id",
+    "SELECT id FROM users WHERE NOT (city LIKE 'N%' OR vip) ORDER BY id",
+    "SELECT id, (age > 30 OR vip) IN (TRUE) AS a, (NOT vip) IS NULL AS b, (age > 30 AND vip) IN (FALSE) AS c FROM users ORDER BY id",
+    "SELECT id, (CASE WHEN vip THEN city ELSE 'N' END) LIKE 'N%' AS l, (city || 'x') LIKE '%x' AS m FROM users ORDER BY id",
+    "SELECT id, vip IS TRUE AS t, vip IS NOT TRUE AS nt FROM users ORDER BY id",
+    "SELECT id, round(score, 2) AS r, round(score) AS r0, round(age / 7.0, 1) AS q FROM users ORDER BY id",
+    "SELECT id, 'a''''b' AS qq, 'it''s' || city AS c FROM users ORDER BY id",
+    "SELECT id, -(-age) AS pp, - age * 2 AS m, -(age * 2) AS n, NOT NOT vip AS v FROM users ORDER BY id",
 ];
 
 pub fn generate(seed: u64, run: u64, depth: u32) -> Workload {
